@@ -29,6 +29,9 @@ lazy_static::lazy_static! {
     static ref LAYER_CONTINUE_REGEX: Regex = Regex::new(r"LAYER_(\d+)~(\d+)").unwrap();
 }
 
+/// No layer is wider or higher than the largest picture the other formats (and SAUCE) can describe.
+const MAX_LAYER_EXTENT: i32 = 65_535;
+
 impl OutputFormat for IcyDraw {
     fn get_file_extension(&self) -> &str {
         "icy"
@@ -572,6 +575,10 @@ impl OutputFormat for IcyDraw {
                                     o += 4;
                                     let height: i32 = u32::from_le_bytes(bytes[o..(o + 4)].try_into().unwrap()) as i32;
                                     o += 4;
+                                    // every row that holds a cell is allocated at the layer width
+                                    if width > MAX_LAYER_EXTENT || height > MAX_LAYER_EXTENT {
+                                        return Err(anyhow::anyhow!("layer size out of range: {width}x{height}"));
+                                    }
                                     layer.set_size((width, height));
                                     let default_font_page = u16::from_le_bytes(bytes[o..(o + 2)].try_into().unwrap());
                                     o += 2;
